@@ -272,6 +272,7 @@ impl Prop for C03 {
         }
         let mut cfg = PpCfg::full();
         cfg.max_items = 8;
+        cfg.define_via = t.chance(1, 3);
         let case = gen_case(ctx, t, &cfg)?;
         // token / error agreement is C04/C05/C10's business; a disagreement there is reported by those checks
         let o = match compare_with_model(ctx, "C03", case, st) {
@@ -286,6 +287,9 @@ impl Prop for C03 {
             return Ok(());
         }
         let ms = o.model.stats.clone();
+        if ms.generated_def_expansions > 0 {
+            st.class("expansion of a macro that was defined by another macro's expansion");
+        }
         if let Err((msg, d)) = check_origins(&o, st) {
             return Err(Fail::new(msg, json!({"case": run::case_json(&o.case), "detail": d})));
         }
